@@ -10,6 +10,9 @@ cd /repo && git status --short | grep -v '^??' | grep . && { echo "/repo not cle
 git -C /repo apply "$D/patch.diff" || { echo "patch does not apply"; exit 2; }
 trap 'git -C /repo checkout -- . ' EXIT
 for P in $PROPS; do
+  cp /verif/evidence/$P.json /tmp/evidence-$P.keep 2>/dev/null
   cd /verif && ./check $P quick 2>&1 | grep "^property\|^VIOLATION\|  what\|INCONCL\|BUILD" | cut -c1-260
   echo "exit=$? prop=$P seeded=$(basename $D)"
+  # evidence written while a seeded change was applied is not evidence about /repo: put the previous file back
+  [ -f /tmp/evidence-$P.keep ] && mv /tmp/evidence-$P.keep /verif/evidence/$P.json
 done
